@@ -493,6 +493,21 @@ def c16(ctx):
     for f in ("avx2", "sse2", "fallback"):
         replay_cmd(ctx, binp, "replay-obj", ovec, "obj@%s" % f, {"result", "panic"}, extra=["--lifts", 5 if q else 9, "--force", f])
     mm_replay(ctx, binp, vec, "objects", {"result", "panic"}, 4 if q else 8)
+    # I->S at real constants: random operation histories on real objects, folded through the P-layer object machine by TLC
+    for force in ("avx2", "fallback"):
+        tr = os.path.join(ctx.dir, "objhist_%s.ndjson" % force)
+        rep, rc, err = C.run_harness(ctx, binp, ["record-obj", "--trace", tr, "--count", 240 if q else 3000, "--force", force], "rec_obj_" + force)
+        if rep is None:
+            raise ToolError("recorder failed rc=%s: %s" % (rc, err[-1500:]))
+        n_, viol, summ = C.validate_trace(ctx, "Trace_Objects", tr, {}, "objhist_" + force, max_records=20 if q else 250, par=12)
+        for (pp, tup) in viol:
+            recd = C.record_at(pp, tup[1])
+            ctx.violation("objhist:%s:%s" % (force, tup[2]),
+                          "recorded object history (%s dispatch): operation %d (%s) returned %s; the object machine (pure function of the needle, iterator = position in the greedy sequence) disagrees" % (
+                              force, tup[4], tup[2], recd["ops"][tup[4] - 1]["ret"]), {"record": recd})
+        for s_ in summ:
+            ctx.evaluations += s_[3]
+            ctx.add_counters({"object_history_ops@%s" % force: s_[3]})
     ctx.evaluations += sum_exec(ctx, ["obj_exec", "mm_exec"])
     return C.finish(ctx, "model_checking",
                     "MC_MemmemObjects: action-style spec of a Finder searched over several haystacks in any order, a partially consumed FindIter, its clone, into_owned and the "
